@@ -140,6 +140,11 @@ def appendChar (o : Nat) (ch : Nat) : M Unit := do
   concatCharInto tmpB o ch
   withTemp tmpB (assignMove o tmpB)
 
+/-- results of a const operation: each `(d, v)` is a new object `d` holding the computed value `v` -/
+def deriveAll : List (Nat × List Nat) → M Unit
+  | [] => pure ()
+  | (d, v) :: rest => do fresh d v; deriveAll rest
+
 /-- string-level operations as data -/
 inductive SOp where
   | ctorText (o : Nat) (us : List Nat) (m : Mode)       -- N
@@ -184,7 +189,7 @@ def SOp.run : SOp → M Unit
   | .setBufCopy o m => StrPool.setBufCopy o bufSlot m
   | .ctorBufMove o m => StrPool.ctorBufMove o bufSlot m
   | .ctorBufCopy o m => StrPool.ctorBufCopy o bufSlot m
-  | .derive ds => ds.forM fun (d, v) => StrPool.fresh d v
+  | .derive ds => StrPool.deriveAll ds
   | .deriveThrow e => throwE e
   | .query => pure ()
 
